@@ -384,3 +384,11 @@ pub mod box_map {
         }
     }
 }
+
+/// The same map under the names `slot_block_data.rs` imports (C12 redirects all three maps of
+/// `BlockData` here: with the inline `verif_coll::BTreeMap` for the small ones the solver input of
+/// the two-shred harnesses exceeds the memory cap, measured).
+pub type BTreeMap<K, V> = BoxMap<K, V>;
+pub mod btree_map {
+    pub use super::box_map::{Entry, OccupiedEntry, VacantEntry};
+}
